@@ -2,6 +2,25 @@
 # runs every validation campaign; must be started in the lean project directory (lake env …)
 PY=/venv/bin/python
 V=scratch/validate.py
+# scratch copies of the fixed tree, each with ONE line of single.py removed / changed
+if [ ! -d scratch/mutA ]; then
+  for m in A B C D E; do mkdir -p scratch/mut$m; cp -r /tmp/repo_fixed/eqsig scratch/mut$m/eqsig; done
+  /venv/bin/python - <<'PYEOF'
+def edit(m, old, new):
+    p = 'scratch/mut%s/eqsig/single.py' % m
+    s = open(p).read(); assert s.count(old) == 1, (m, old); open(p, 'w').write(s.replace(old, new))
+# A: the response_times setter does not reset the flag (= the pre-fix plain attribute)
+edit('A', "        self._response_times = response_times\n        self._cached_response_spectra = False\n", "        self._response_times = response_times\n")
+# B: AccSignal.clear_cache forgets the velocity/displacement flag
+edit('B', "        self._cached_response_spectra = False\n        self._cached_disp_and_velo = False\n        self.reset_all_motion_stats()", "        self._cached_response_spectra = False\n        self.reset_all_motion_stats()")
+# C: AccSignal.clear_cache forgets the Fourier flag
+edit('C', "        self._cached_smooth_fa = False\n        self._cached_fa = False\n        self._cached_response_spectra = False\n", "        self._cached_smooth_fa = False\n        self._cached_response_spectra = False\n")
+# D: reset_values stores the reference (pre-fix)
+edit('D', "        self._values = np.array(new_values)\n", "        self._values = new_values\n")
+# E: reset_values forgets _npts
+edit('E', "        self._values = np.array(new_values)\n        self._npts = len(new_values)\n", "        self._values = np.array(new_values)\n")
+PYEOF
+fi
 RV="reset_values add_constant add_series add_signal butter_pass remove_average remove_poly set_zero_residual_velocity set_zero_residual_displacement set_zero_residual_displacement_and_velocity correct_me"
 run() { tree=$1; shift; echo "### tree=$tree $*"; PYTHONPATH=$tree $PY $V "$@" 2>/dev/null | grep -v WARNING; }
 # 1. fixed tree vs golden table: everything fresh, nothing shared
